@@ -160,4 +160,28 @@ PROPS["C11"] = dict(level="proof", module="Texel.Properties.C11", translators=["
                "a measure drops on every step (every run ends). close/wait placement is tied by the extracted skeleton. Goroutine leaks, early return and hangs are also looked for on the real code with adversarial speeds and GOMAXPROCS 1..16; the race detector runs in the thorough tier.",
     level_note="Trusted: Lean kernel, skeleton extractor; real scheduling, memory model and race freedom are outside the theorem (explored).")
 
+PROPS["C12"] = dict(level="proof", module="Texel.Properties.C12", translators=["skel"],
+    technique="Lean 4 theorems on the paging function, the column lists and the extent bookkeeping (for every count and page size) + extracted paging skeleton + read-back of real GeoPackages written by TargetGeopackage on SQLite",
+    theorems=["Texel.C12.C12_concat", "Texel.C12.C12_sizes", "Texel.C12.C12_final_flush", "Texel.C12.C12_columns", "Texel.C12.C12_extent", "Texel.C12.skeleton_matches"],
+    streams=["page"], design_ref="DESIGN.md §6 C12",
+    trusted=["the paging loop of WriteFeatures and the row construction of writeFeatures are tied by the extracted skeleton (trgen skel) compared by decide",
+             "SQLite, its rtree triggers (with the stub's ST_IsEmpty/ST_MinX.. functions registered under build tag verif), database/sql and go-spatial's gpkg package are outside the model: "
+             "every written file is read back (rows, rtree_*, gpkg_contents, gpkg_geometry_columns, PRAGMA table_info) and compared",
+             "row order inside a table with an INTEGER PRIMARY KEY is key order in SQLite; the order of arrival is C10's"],
+    level_text="Theorems for every feature count and every positive page size: the pages concatenate to the stream (nothing lost, duplicated, reordered), every page but the last is full, there is always a final flush, "
+               "every value is inserted under its own column with the geometry last wherever the geometry column sits, and the stored extent after all per-page merges is the bounding box of everything written. "
+               "The real TargetGeopackage is run on real SQLite for counts 0..3p+1, p = 1..7 (all pairs) and random pairs, tables with NULLs, empty geometries and any geometry-column position, and every file is read back.",
+    level_note="Trusted: Lean kernel, skeleton extractor; SQLite/rtree/database/sql behaviour is validated by read-back, not proved; page size 0 is a division-by-zero panic outside the property.")
+PROPS["C13"] = dict(level="proof", module="Texel.Properties.C13", translators=["skel", "flags"],
+    technique="Lean 4 theorems (target path shape; flag plumbing extracted from main.go; composition of the pipeline and paging theorems) + end-to-end runs of the real binary compared with the library called in-process",
+    theorems=["Texel.C13.flags_match", "Texel.C13.C13_path_file", "Texel.C13.C13_stem_ext", "Texel.C13.C13_compose"],
+    streams=["cli", "tpath"], design_ref="DESIGN.md §6 C13",
+    trusted=["trgen flags (go/ast) extracts the flag table and the Config plumbing of main.go; main.go's table loop and initGPKGTarget are tied end to end by the cli stream (real binary, tag verif for the SQLite stub driver)",
+             "path.Split/Ext/Join and fmt.Sprintf are modelled on a safe alphabet (no '%', clean directory part)",
+             "the file system and os.Remove (overwrite) are outside the model: checked by the cli stream with pre-existing target files"],
+    level_text="Theorems: _<id> is inserted before the extension of the file name; each flag feeds the Config field / page size / overwrite it should (re-extracted from main.go on every run); and what a target has written when a table is done is, for any page size and schedule, "
+               "exactly the features addressed to that tile matrix in source order (C10 with C12). The real binary is run on random GeoPackages (several tables, mixed geometry types, collapsing/splitting/outside polygons, 1-3 ids, page sizes 1..7 and 1000, all flags by name and alias, "
+               "pre-existing targets with overwrite) and every target table is compared with what snap.SnapPolygon returns in-process.",
+    level_note="Trusted: Lean kernel, the two extractors; the binary's behaviour end to end is validated by differential runs, not proved.")
+
 NOT_CLAIMED = {}
